@@ -213,8 +213,15 @@ def pmap(fn, items, seed=0, fresh=True):
         from . import spec as _S
 
         keep = {_S.key(t) for t in _S.EDGE() + _S.NDX()[-2:]}
-        items = [it for it in items if isinstance(it, tuple) and it and isinstance(it[0], dict) and "t" in it[0]
-                 and _S.key(it[0]) in keep]
+
+        def _specs(x, d=0):
+            if isinstance(x, dict) and "t" in x:
+                yield x
+            elif isinstance(x, (tuple, list)) and d < 3:
+                for y in x:
+                    yield from _specs(y, d + 1)
+
+        items = [it for it in items if any(_S.key(t) in keep for t in _specs(it))]
     n = len(items)
     order = list(range(n))
     if n:
